@@ -99,7 +99,8 @@ func (scb *SchemaClientBoundImpl) Retrieve(ctx context.Context, path *sdcpb.Path
 	})
 	entry.schemaRsp = schema
 	entry.err = err
-	entry.ready = true
+	// only successful answers are memoised, a failed lookup is repeated on the next request
+	entry.ready = err == nil
 
 	return entry.Get()
 }
